@@ -37,7 +37,11 @@ BuilderRandom ==
      LET n == 4 + RndNat(Seed, k, 6)
          calls == [i \in 1..n |-> BAlphaBig[RndNat(Seed, 100 * k + i, Len(BAlphaBig)) + 1]] IN
      BuilderSession(calls, k % 2 = 0, "random")]
-BuilderVecs == BuilderExhaustive(1) \o BuilderExhaustive(2) \o (IF Thorough THEN BuilderExhaustive(3) ELSE << >>) \o BuilderRandom
+\* payloads at the two-byte length limit through the builder (65534, 65535 accepted like the direct constructor, 65536 refused)
+BuilderLimit ==
+  Cross2(<< 1, 4, 5 >>, << 65534, 65535, 65536 >>, LAMBDA t, n : BuilderSession(<< WT(t), WP(Fill(n, t)), [m |-> "Validate"], [m |-> "Build"] >>, TRUE, "payload-limit"))
+  \o << BuilderSession(<< WP(Fill(65535, 9)), WKT(7, 4), [m |-> "Build"], WP(Fill(65535, 3)), [m |-> "Build"] >>, TRUE, "payload-limit") >>
+BuilderVecs == BuilderLimit \o BuilderExhaustive(1) \o BuilderExhaustive(2) \o (IF Thorough THEN BuilderExhaustive(3) ELSE << >>) \o BuilderRandom
 
 (******************************* fixed-size values *************************)
 FixedSession(fn, n) ==
